@@ -41,6 +41,20 @@ func (ft *FT) fnEnv(b *Body, st State) *CEnv {
 	for k, v := range ft.paramCVs {
 		env.vars[k] = v
 	}
+	// a renamed parameter: the contract still uses the name it had on the unchanged tree
+	// (positional alias from contracts/names.json)
+	if old := ft.e.oldParams(ft.fn.String()); old != nil {
+		for i, p := range ft.fn.Params {
+			if i < len(old) && old[i] != "" && old[i] != p.Name() {
+				if _, taken := env.vars[old[i]]; !taken {
+					if cur, ok := env.vars[p.Name()]; ok {
+						env.vars[old[i]] = cur
+						ft.abstraction("contract identifier " + old[i] + " read as the parameter " + p.Name() + " (renamed, same position)")
+					}
+				}
+			}
+		}
+	}
 	return env
 }
 
